@@ -117,7 +117,8 @@ def connect_worker(analysis: Analysis, spec) -> dict:
                 seq.append("test-protocol")
             elif e.kind == "call" and (e.name.endswith(".start") or e.name.endswith(".connect")):
                 seq.append("connected")
-        rows.append({"kind": kind, "exc": f"{v.cls.__name__} at {v.site}" if kind == "raise" else None, "cancelled": kind == "raise" and v.cls.__name__ == "CancelledError", "seq": seq, "witness": describe_path(out, 22)})
+        timers = sorted({e.name for e in s.events if e.kind == "store" and e.name in ("tcp_check_timer", "tcp_disconnect_timer") and e.args and "time.time" in repr(e.args[0].key())})
+        rows.append({"kind": kind, "exc": f"{v.cls.__name__} at {v.site}" if kind == "raise" else None, "cancelled": kind == "raise" and v.cls.__name__ == "CancelledError", "seq": seq, "timers": timers, "witness": describe_path(out, 22)})
     return {"qual": qual, "async": info.is_async, "rows": rows}
 
 
@@ -164,6 +165,33 @@ def watchdog_worker(analysis: Analysis, ctxspec) -> list:
     return rows
 
 
+def async_check_worker(analysis: Analysis, ctxspec) -> list:
+    """Paths of the asyncio variant of the connection check: drop-and-reconnect versus re-arm."""
+    ctx = analysis.context(*ctxspec)
+    it = analysis.new_interp(ctx)
+    st, gw = analysis.gateway_state(it)
+    it.inline_skip = {"__init__:Gateway.alert"}
+    outs = analysis.run_root(it, "gateway_tcp:AsyncTCPGateway.check_connection", [], gw, st)
+    rt = ("attr", ("attr", ("attr", gw.key(), "tasks"), "transport"), "reconnect_timeout")
+    rows = []
+    for out in outs:
+        kind, s, v = out
+        dropped = [i for i, e in enumerate(s.events) if e.kind == "catch" and e.name == "OSError" and e.func.startswith("gateway_tcp:AsyncTCPGateway.")]
+        after = s.events[dropped[0]:] if dropped else []
+        closed = any(e.kind == "call" and e.name == "exttransport.close" for e in after)
+        recon = any(e.kind == "call" and e.name == "?callable" and isinstance(e.recv, V) and "conn_lost_callback" in repr(e.recv.key()) for e in after)
+        rearm = [e for e in s.events if e.kind == "store" and e.name == "cancel_check_conn" and e.args and "asyncio.Handle.cancel" in repr(e.args[0].key())]
+        cb_ok = delay_ok = False
+        for e in rearm:
+            h = getattr(e.args[0], "recv", None)
+            hargs = list(getattr(h, "args", []) or [])
+            if len(hargs) >= 2:
+                delay_ok = repr(rt) in repr(hargs[0].key()) or hargs[0].key() == rt
+                cb_ok = "check_connection" in repr(hargs[1].key()) and repr(gw.key()) in repr(hargs[1].key())
+        rows.append({"kind": kind, "dropped": bool(dropped), "closed": closed, "reconnect": recon, "rearmed": bool(rearm), "rearm_cb": cb_ok, "rearm_delay": delay_ok, "witness": describe_path(out, 16)})
+    return rows
+
+
 def watchdog_structure(analysis: Analysis, res: RuleResult) -> None:
     """R5: structure of the TCP watchdog (which timer, which factor, which side of the comparison).
 
@@ -186,10 +214,6 @@ def watchdog_structure(analysis: Analysis, res: RuleResult) -> None:
     res.add("C20-R5", "gateway_tcp:BaseTCPGateway._handle_i_version / an answer restarts the disconnect timer", "self.tcp_disconnect_timer = time.time()" in unparse(h.node), common.where(analysis, h, h.node), "")
     init = analysis.p.func("gateway_tcp:BaseTCPGateway.__init__")
     res.add("C20-R5", "gateway_tcp:BaseTCPGateway.__init__ / answers to the version probe are routed to the watchdog", "I_VERSION.set_handler" in unparse(init.node) and "_handle_i_version" in unparse(init.node), common.where(analysis, init, init.node), "")
-    for q in ("gateway_tcp:sync_connect", "gateway_tcp:async_connect"):
-        f = analysis.p.func(q)
-        t = unparse(f.node)
-        res.add("C20-R5", f"{q} / both watchdog timers restart on a new connection", "tcp_check_timer = time.time()" in t and "tcp_disconnect_timer = time.time()" in t, common.where(analysis, f, f.node), "")
     run = analysis.p.func("gateway_tcp:TCPTransport.run")
     ok = False
     cls = analysis.p.classes["gateway_tcp:TCPTransport"]
@@ -239,8 +263,13 @@ def watchdog_structure(analysis: Analysis, res: RuleResult) -> None:
     if n_sel < 1:
         raise AnalysisError("C20-R5: no select() call found in TCPTransport")
     a = analysis.p.func("gateway_tcp:AsyncTCPGateway.check_connection")
-    t = unparse(a.node)
-    res.add("C20-R5", "gateway_tcp:AsyncTCPGateway.check_connection / re-arms itself and, when silent, closes and reconnects", "call_later" in t and "self.check_connection" in t and "conn_lost_callback()" in t and ".close()" in t and "except OSError" in t, common.where(analysis, a, a.node), "")
+    arows = common.pmap(analysis, async_check_worker, [(analysis.versions[-1], "tcp", "async")])[0]
+    silent = [r for r in arows if r["dropped"]]
+    alive = [r for r in arows if not r["dropped"] and r["kind"] == "val"]
+    ok_s = bool(silent) and all(r["kind"] != "val" or (r["closed"] and r["reconnect"] and not r["rearmed"]) for r in silent) and any(r["kind"] == "val" for r in silent)
+    ok_a = bool(alive) and all(r["rearmed"] and r["rearm_cb"] and r["rearm_delay"] for r in alive)
+    bad = next((r["witness"] for r in silent if r["kind"] == "val" and not (r["closed"] and r["reconnect"] and not r["rearmed"])), None) or next((r["witness"] for r in alive if not (r["rearmed"] and r["rearm_cb"] and r["rearm_delay"])), None)
+    res.add("C20-R5", "gateway_tcp:AsyncTCPGateway.check_connection / re-arms itself and, when silent, closes and reconnects", ok_s and ok_a, common.where(analysis, a, a.node), f"{len(silent)} silent-link path(s): close + conn_lost_callback, no re-arm; {len(alive)} live path(s): call_later(reconnect_timeout + d, self.check_connection) published as cancel_check_conn" if ok_s and ok_a else "a silent link is not closed and handed to the reconnect callback, or a live link does not re-arm the check with the reconnect timeout", bad)
 
 
 def run(analysis: Analysis, tier: str) -> RuleResult:
@@ -305,6 +334,9 @@ def run(analysis: Analysis, tier: str) -> RuleResult:
                 async_success = summ["async"] and last_attempt is not None and not any(x.startswith("catch:") for x in seq[last_attempt:])
                 if "connected" in seq or async_success:
                     res.add("C20-R2", f"{q} / success leaves the loop", True, "mysensors", "returns after connecting")
+                    if q.startswith("gateway_tcp:"):
+                        okt = r["timers"] == ["tcp_check_timer", "tcp_disconnect_timer"]
+                        res.add("C20-R5", f"{q} / both watchdog timers restart on a new connection", okt, "mysensors/gateway_tcp.py", "tcp_check_timer = tcp_disconnect_timer = now on the connecting path" if okt else f"only {r['timers']} restarted on a connecting path: the watchdog measures the silence of the previous link", r["witness"] if not okt else None)
                 elif summ["async"]:
                     res.add("C20-R2", f"{q} / the asyncio loop is left only by success or cancellation", False, "mysensors", f"returns without a connection: {seq}", r["witness"])
         res.add("C20-R2", f"{q} / failed attempts are retried", saw_retry, "mysensors", "some failing path retries")
